@@ -1,7 +1,7 @@
 (* C08 property theorems: statements only, each closed by [exact]. *)
 From Boltons Require Import Lib.Prelude Lib.C08_Py Spec.C08_Spec Model.C08_Model
   Proofs.C08_Machine Proofs.C08_Tree Proofs.C08_Inject Proofs.C08_Cycle Proofs.C08_Paths
-  Proofs.C08_Copy Proofs.C08_Witness.
+  Proofs.C08_Copy Proofs.C08_Shared Proofs.C08_Witness.
 
 (* The stack machine (work stack + exit sentinels + id registry + new_items_stack
    + path) IS the bottom-up recursion: for every input term (shared and cyclic
@@ -81,6 +81,23 @@ Theorem C08_cycle_tuple_refuted :
                     = Done (ONode 0 KTuple [(KI 0, ONode 1 KList [(KI 0, OBlank KTuple)])]) m lg.
 Proof. exact tuple_cycle_witness. Qed.
 Print Assumptions C08_cycle_tuple_refuted.
+
+(* REBUILT ONCE, STAYS SHARED: for every input (sharing, cycles), every visit, the
+   result denotes a proper object graph: every container node occurring anywhere in
+   the result or in the registry IS the registry's single entry for its name, so
+   two occurrences of the object rebuilt from the same input container are the
+   same object with the same content (not two equal copies). *)
+Theorem C08_shared : forall visit reraise defs root v m lg,
+  remap (lift visit) reraise defs root = Done v m lg ->
+  registered m v /\ Cons m
+  /\ forall x y, In x (subs v) -> In y (subs v) -> is_node x -> is_node y -> node_id x = node_id y -> x = y.
+Proof. exact machine_shared. Qed.
+Print Assumptions C08_shared.
+
+Example C08_shared_inhabited :
+  exists m lg, remap None true [] ex_dag = Done
+    (ONode 0 KList [(KI 0, ONode 1 KTuple [(KI 0, OLeaf 5)]); (KI 1, ONode 1 KTuple [(KI 0, OLeaf 5)])]) m lg.
+Proof. exact ex_dag_ok. Qed.
 
 (* DEFAULT CALLBACKS: the result is an equal deep copy.  "input container j |->
    the new object registered for j" is a graph isomorphism: same kind and, item
